@@ -139,7 +139,8 @@ def generic(mod, pid, args, seed, t0):
   replay_paths = []
   exit_code = 0
   if failed or violations:
-    shas = {f['contract'].file: source.load(repo, f['contract'].file).sha256 for f in per_fn}
+    shas = {f['contract'].file: source.load(repo, f['contract'].file).sha256 for f in per_fn
+            if f['contract'].label != 'spec-lemmas'}
     if violations:
       for w in violations[:5]:
         payload = dict(property=pid, kind='native-witness', witness=w, file_sha256=shas,
@@ -179,8 +180,8 @@ def generic(mod, pid, args, seed, t0):
   fns = []
   for f in per_fn:
     c = f['contract']
-    m = source.load(repo, c.file)
-    fns.append(dict(file=c.file, function=c.qualname, instance=c.instance, sha256=m.sha256,
+    sha = source.load(repo, c.file).sha256 if c.label != 'spec-lemmas' else None
+    fns.append(dict(file=c.file, function=c.qualname, instance=c.instance, sha256=sha,
                     loops=len(c.loops), paths=f['paths'], exits=f['exits'],
                     obligations=len(f['obligations']),
                     discharged=len([o for o in f['obligations'] if o.status == 'proved']),
